@@ -30,12 +30,55 @@ def install_stub_modules():
             sys.modules['bottle'] = m
 
 
+def _dbapi_module(name):
+    """A module object with the PEP 249 exception hierarchy and nothing else."""
+    m = types.ModuleType(name)
+
+    class Warning(Exception): pass
+    class Error(Exception): pgcode = None
+    class InterfaceError(Error): pass
+    class DatabaseError(Error): pass
+    class DataError(DatabaseError): pass
+    class OperationalError(DatabaseError): pass
+    class IntegrityError(DatabaseError): pass
+    class InternalError(DatabaseError): pass
+    class ProgrammingError(DatabaseError): pass
+    class NotSupportedError(DatabaseError): pass
+    for k, v in list(locals().items()):
+        if isinstance(v, type): setattr(m, k, v)
+    m.paramstyle = 'pyformat'
+    return m
+
+
 def install_driver_stubs():
+    """psycopg2 / pymysql / cx_Oracle stand-ins: PEP 249 exception classes + the names the dialect modules touch at import."""
     from unittest import mock
-    for name in ('psycopg2', 'psycopg2.extensions', 'psycopg2.extras', 'MySQLdb', 'MySQLdb.converters', 'MySQLdb.constants',
-                 'pymysql', 'pymysql.converters', 'pymysql.constants', 'cx_Oracle'):
-        if name not in sys.modules:
-            try:
-                __import__(name)
-            except ImportError:
-                sys.modules[name] = mock.MagicMock(name=name)
+    if 'psycopg2' not in sys.modules:
+        try:
+            import psycopg2  # noqa
+        except ImportError:
+            m = _dbapi_module('psycopg2')
+            ext = types.ModuleType('psycopg2.extensions'); extras = types.ModuleType('psycopg2.extras')
+            for f in ('register_uuid', 'register_default_json', 'register_default_jsonb'):
+                setattr(extras, f, lambda *a, **k: None)
+            m.extensions = ext; m.extras = extras
+            sys.modules.update({'psycopg2': m, 'psycopg2.extensions': ext, 'psycopg2.extras': extras})
+    if 'pymysql' not in sys.modules and 'MySQLdb' not in sys.modules:
+        try:
+            import pymysql  # noqa
+        except ImportError:
+            m = _dbapi_module('pymysql')
+            conv = types.ModuleType('pymysql.converters'); const = types.ModuleType('pymysql.constants')
+            conv.escape_str = lambda s, *a: "'%s'" % s; conv.conversions = {}
+            conv.encoders = {}; conv.decoders = {}
+            const.FIELD_TYPE = mock.MagicMock(); const.FLAG = mock.MagicMock(); const.CLIENT = mock.MagicMock()
+            m.converters = conv; m.constants = const
+            sys.modules.update({'pymysql': m, 'pymysql.converters': conv, 'pymysql.constants': const})
+    if 'cx_Oracle' not in sys.modules:
+        try:
+            import cx_Oracle  # noqa
+        except ImportError:
+            m = _dbapi_module('cx_Oracle')
+            for k in ('LOB', 'STRING', 'NUMBER', 'FIXED_CHAR', 'TIMESTAMP', 'SessionPool', 'CLOB', 'BLOB', 'DATETIME', 'NATIVE_FLOAT'):
+                setattr(m, k, mock.MagicMock(name=k))
+            sys.modules['cx_Oracle'] = m
